@@ -82,7 +82,7 @@ TTML_RICH = """<?xml version="1.0" encoding="UTF-8"?>
     <div>
       <p region="r1" begin="1s" end="2.5s"><span tts:fontWeight="bold">Bold</span> and <span tts:fontStyle="italic" tts:color="#FF0000">red italic</span></p>
       <p region="r2" begin="2s" end="4s" tts:textAlign="start">Second<br/>line <span tts:textDecoration="underline">under</span></p>
-      <p region="r1" begin="00:00:05:10" end="6s" xml:lang="fr">Trois</p>
+      <p region="r1" begin="00:00:05:10" end="6s" xml:lang="fr">Trois <span tts:color="lime" tts:backgroundColor="blue">quatre</span> <span tts:color="#FFFF00">cinq</span></p>
     </div>
   </body>
 </tt>
@@ -1174,6 +1174,13 @@ def run_driver(jobs, hashseed=0, timeout=120):
     shutil.rmtree(tmp, ignore_errors=True)
 
 
+def _parallel(job_lists, threads=3):
+  """run_driver on several job lists, a few sub-processes at a time; results in order"""
+  from concurrent.futures import ThreadPoolExecutor
+  with ThreadPoolExecutor(max_workers=threads) as ex:
+    return list(ex.map(run_driver, job_lists))
+
+
 def _result_sig(res):
   """what must be equal between two runs of the same job: status class and the files written"""
   return [res["status"], sorted((k, v) for k, v in res["files"].items())]
@@ -1219,9 +1226,10 @@ def make_expand(depth, merged):
     if len(hist) >= depth:
       return []
     succ = []
-    for jid in MENU_IDS:
+    # the successors are independent fresh interpreters: start a few at a time
+    runs = _parallel([[MENU[j] for j in list(hist) + [jid]] for jid in MENU_IDS])
+    for jid, res in zip(MENU_IDS, runs):
       h2 = list(hist) + [jid]
-      res = run_driver([MENU[j] for j in h2])
       for pos, (j, r) in enumerate(zip(h2, res["results"])):
         want = fresh_ref(j)["results"][0]
         if _result_sig(r) != _result_sig(want):
@@ -1369,10 +1377,9 @@ def gates():
 def plan(tier, seed):
   depth = 2 if tier == "quick" else 3     # all sequences up to this length; the merged search goes one job deeper
   # fresh-process references are computed once here (before the workers fork) and inherited by them
-  if "__pristine__" not in _REF:
-    _REF["__pristine__"] = run_driver([])
-  for jid in MENU_IDS:
-    fresh_ref(jid)
+  todo = [j for j in ["__pristine__"] + MENU_IDS if j not in _REF]
+  for j, res in zip(todo, _parallel([[] if j == "__pristine__" else [MENU[j]] for j in todo], threads=5)):
+    _REF[j] = res
   return [
     fam_histories(depth, False),
     fam_histories(depth + 1, True),
